@@ -85,6 +85,11 @@ func c06Setup(r *drv.Run, i int, rng *gen.Rng) *c06Layout {
 			sz = sizes[rng.Intn(5)]
 		}
 		name := fmt.Sprintf("in%d.txt", k)
+		if k == 1 && rng.Chance(1, 2) {
+			// a searched file whose own name ends in .vored (output of an earlier run picked up by a glob):
+			// NEW must create <name>.vored next to it and leave it alone
+			name = "in1.txt.vored"
+		}
 		b := c06Content(rng, sz)
 		l.names = append(l.names, name)
 		l.contents[name] = b
